@@ -33,7 +33,7 @@ from tangermeme.utils import random_one_hot
 from bounded.C04 import gen_spec, build, nn
 
 SCOPE = {
-    'quick': '40 configurations: float64 nets of the C04 generator (depth 1-4, disjoint max-pooling) or the integer recording model, n in 2..3 examples, n_shuffles 1..4, references tensor (one-hot / real) or generated (dinucleotide_shuffle / shuffle with integer random_state), with and without two extra args, random target; per configuration: every batch_size 1..n*S+1 x {processed, hypothetical, raw}, every ordered subset of the examples (15 for n=3) with random batch size / output kind / return_references, repeat-call determinism',
+    'quick': '100 configurations: float64 nets of the C04 generator (depth 1-4, disjoint max-pooling) or the integer recording model, n in 2..3 examples, n_shuffles 1..4, references tensor (one-hot / real) or generated (dinucleotide_shuffle / shuffle with integer random_state), with and without two extra args, random target; per configuration: every batch_size 1..n*S+1 x {processed, hypothetical, raw}, every ordered subset of the examples (15 for n=3) with random batch size / output kind / return_references, repeat-call determinism',
     'thorough': '500 configurations, n in 2..4 (all 64 ordered subsets for n=4), otherwise as quick',
 }
 
@@ -189,7 +189,7 @@ def run(rep):
     thorough = rep.tier == 'thorough'
     rng = rep.rng
     stats = {'worst': 0.0}
-    n_cfg = 500 if thorough else 40
+    n_cfg = 500 if thorough else 100
     done = 0
     for k in range(n_cfg):
         if rep.out_of_time():
